@@ -214,7 +214,7 @@ Sampled == {n \in 1..N : n % Stride = Offset}
 SampleSeq == SetToSeq(Sampled)
 Good == {c \in {CallSeq[n] : n \in Sampled} : ~CtorFails(c)}
 
-(* algebraic facts over the whole table *)
+(* algebraic facts over the table (the sampled part of it when Stride > 1; wire-full.cfg: all of it) *)
 ASSUME \A t \in Types : \E n \in 0..7 : TypeNo[t] = ToString(n)
 ASSUME Cardinality({TypeNo[t] : t \in Types}) = Cardinality(Types)
 ASSUME \A v \in Vals : v \in NoVal \cup RealVals
